@@ -50,7 +50,7 @@ def vertex_clouds(draw, lo=1e-2, hi=1e2, degenerate=False, max_n=24):
     if degenerate:
         classes += ["needle", "plate", "single", "segment", "planar"]
     cls = draw(st.sampled_from(classes))
-    f = st.floats(-1.0, 1.0, allow_nan=False, width=64)
+    f = atoms.coord(-1.0, 1.0)
     if cls == "tetra":
         n = 4
     elif cls == "single":
